@@ -23,7 +23,7 @@ pub static SPEC: PropSpec = PropSpec {
     case_cpu_s: 120,
     shards: 0,
     run,
-    floors: &[("ir_programs_checked", 150, 10_000), ("anf_nodes_checked", 20_000, 2_000_000), ("injections_rejected_by_typer", 300, 20_000)],
+    floors: &[("ir_programs_checked", 150, 10_000), ("anf_nodes_checked", 20_000, 2_000_000), ("injections_rejected_by_typer", 300, 20_000), ("self_position_programs_checked", 16, 16), ("closure_product_programs_checked", 25, 25)],
     finish: None,
 };
 
@@ -94,6 +94,60 @@ fn check_injection(case: &mut Case, label: &str, src: &str, inj: &inject::Inject
     }
 }
 
+/// `Self` in every type-constructor position of a trait method's result, the method called through a `T: Sp` bound
+/// in dot and path form, the result used without and with a constraint on the element type: (name, source, stdout)
+pub fn self_position_programs() -> Vec<(String, String, String)> {
+    // (name, type with Self, body building it from `self`, int32 observation of r, T-valued observation of r)
+    let positions: [(&str, &str, &str, &str, &str); 8] = [
+        ("vec", "Vec[Self]", "vec_push(vec_new(), self)", "vec_len(r)", "vec_get(r, 0)"),
+        ("ref", "Ref[Self]", "ref(self)", "1", "ref_get(r)"),
+        ("tuple", "(Self, int32)", "(self, 7)", "r.1", "r.0"),
+        ("tuple-right", "(bool, Self)", "(true, self)", "1", "r.1"),
+        ("array", "[Self; 2]", "[self, self]", "2", "array_get(r, 1)"),
+        ("generic-enum", "Opt[Self]", "Opt::Som(self)", "(match r { Opt::Som(_) => 1, Opt::Non => 0 })", "(match r { Opt::Som(v) => v, Opt::Non => x })"),
+        ("function-result", "(int32) -> Self", "|k: int32| self", "1", "r(3)"),
+        ("vec-of-tuple", "Vec[(Self, bool)]", "vec_push(vec_new(), (self, true))", "vec_len(r)", "(match vec_get(r, 0) { (v, _) => v })"),
+    ];
+    let mut out = Vec::new();
+    for (name, ty, body, obs_i, obs_t) in positions {
+        let at = |t: &str| ty.replace("Self", t);
+        let head = format!(
+            "enum Opt[T] {{ Som(T), Non }}\nstruct Seg {{ a: int32 }}\ntrait Sp {{\n    fn mk(Self) -> {ty};\n}}\nimpl Sp for Seg {{\n    fn mk(self: Seg) -> {ts} {{ {body} }}\n}}\nimpl Sp for int32 {{\n    fn mk(self: int32) -> {ti} {{ {body} }}\n}}\n",
+            ty = ty,
+            ts = at("Seg"),
+            ti = at("int32"),
+            body = body
+        );
+        let n: i64 = match obs_i {
+            "vec_len(r)" => 1,
+            "r.1" => 7,
+            "2" => 2,
+            _ => 1,
+        };
+        // the result is only counted: nothing else fixes its element type
+        out.push((
+            format!("{}/counted", name),
+            format!(
+                "{}fn count_dot[T: Sp](x: T) -> int32 {{\n    let r = x.mk();\n    {oi}\n}}\nfn count_path[T: Sp](x: T) -> int32 {{\n    let r = Sp::mk(x);\n    {oi}\n}}\nfn main() -> unit {{\n    let _ = string_println(int32_to_string(count_dot(Seg {{ a: 5 }}) * 1000 + count_path(Seg {{ a: 1 }}) * 100 + count_dot(3) * 10 + count_path(4)));\n    ()\n}}\n",
+                head,
+                oi = obs_i
+            ),
+            format!("{}\n", n * 1111),
+        ));
+        // an element is taken out and returned at type T
+        out.push((
+            format!("{}/element", name),
+            format!(
+                "{}fn first_dot[T: Sp](x: T) -> T {{\n    let r = x.mk();\n    {ot}\n}}\nfn first_path[T: Sp](x: T) -> T {{\n    let r = Sp::mk(x);\n    {ot}\n}}\nfn main() -> unit {{\n    let _ = string_println(int32_to_string(first_dot(Seg {{ a: 6 }}).a * 1000 + first_path(Seg {{ a: 2 }}).a * 100 + first_dot(10) + first_path(20)));\n    ()\n}}\n",
+                head,
+                ot = obs_t
+            ),
+            format!("{}\n", 6 * 1000 + 2 * 100 + 10 + 20),
+        ));
+    }
+    out
+}
+
 fn run(ctx: &mut Ctx) {
     let tier = ctx.tier;
     let seed = ctx.seed;
@@ -137,6 +191,38 @@ fn run(ctx: &mut Ctx) {
             let _ = ir_monitor(c, &label, &src);
             c.count("generic_library_programs", 1);
         });
+    }
+    // `Self` nested in type constructors of trait method results, called through bounds (IR monitors)
+    for (i, (name, src, _)) in self_position_programs().into_iter().enumerate() {
+        if !ctx.mine(70_000 + i as u64) {
+            continue;
+        }
+        let label = format!("self-position/{}", name);
+        ctx.case(&label.clone(), |c| {
+            if ir_monitor(c, &label, &src) {
+                c.count("self_position_programs_checked", 1);
+            } else {
+                c.count("self_position_programs_rejected", 1);
+            }
+        });
+    }
+    // the closure product of C08 (body shape x capture kind x flow) under the IR monitors: an unbound captured
+    // variable or a closure typed at its unlifted function type shows in ANF
+    {
+        let cells: Vec<(usize, usize, usize)> = (0..crate::props::c08::N_SHAPES).flat_map(|s| (0..crate::props::c08::N_CAPS).flat_map(move |c| (0..crate::props::c08::N_FLOWS).map(move |f| (s, c, f)))).collect();
+        for (i, chunk) in cells.chunks(24).enumerate() {
+            if !ctx.mine(71_000 + i as u64) {
+                continue;
+            }
+            let prog = crate::props::c08::program(chunk);
+            let src = print_program(&prog, PrintOpts::default());
+            let label = format!("closure-product/{}", i);
+            ctx.case(&label.clone(), |c| {
+                if ir_monitor(c, &label, &src) {
+                    c.count("closure_product_programs_checked", 1);
+                }
+            });
+        }
     }
     // generated: IR monitor + injections
     let n = tier.pick(160u64, 12_000u64) / ctx.nshards as u64 + 1;
